@@ -677,7 +677,13 @@ class RelationSchema:
             RelationSchema: A new RelationSchema object.
         """
         schema = RelationSchema(
-            name=dic["name"], aliases=dic.get("aliases", []), primary_key=dic.get("primary_key")
+            name=dic["name"],
+            aliases=dic.get("aliases", []),
+            primary_key=dic.get("primary_key"),
+            row_count_metric=dic.get("row_count_metric"),
+            row_count_estimate=dic.get("row_count_estimate"),
+            data_size_metric=dic.get("data_size_metric"),
+            data_size_estimate=dic.get("data_size_estimate"),
         )
         for column in dic["columns"]:
             if isinstance(column, dict):
